@@ -28,7 +28,7 @@ def valid_traffic(rng, tg, head):
     # data messages carrying structurally invalid objects
     known = rng.choice(tg.nodes[1:])
     out.append(('dup-block', gen.g_msg_header(rng).serialize() + M.DataMessage(M.DATA_BLOCK, known.block).serialize()))
-    for c in rng.sample([c for c in mutators.mutants(tg, head, rng, tags=('struct', 'C05', 'C02', 'C01')) if c['expect'] == 'reject'], 3):
+    for c in rng.sample([c for c in mutators.mutants(tg, head, rng, tags=('struct',)) if c['expect'] == 'reject'], 3):       # STRUCTURALLY invalid (the property's list); rule violations during a bulk download roll the node back by design (C09)
         out.append(('bad-block:' + c['label'], M.MessageHeader(0, 5, 0, 1).serialize() + M.DataMessage(M.DATA_BLOCK, c['block']).serialize()))
     out.append(('bad-tx', M.MessageHeader(0, 6, 0, 1).serialize() + M.DataMessage(M.DATA_TRANSACTION, gen.g_tx(rng, nin=1, nout=1)).serialize()))
     out.append(('random-block', gen.g_msg_header(rng).serialize() + M.DataMessage(M.DATA_BLOCK, gen.g_block(rng, ntx=2)).serialize()))
@@ -124,6 +124,14 @@ def run(tier, seed):
         cs0 = chaingen.impl_state_from(main)
         with simnet.Net(seed=rng.getrandbits(30), t0=head.view.time + 100) as net:
             sn = nodeharness.SingleNode(net, cs0, [m.block for m in main[1:]], npeers=2)
+            sn.new_messages()
+            # context: a bulk download is in progress -- two valid blocks arrived as replies to the node's own requests and
+            # wait, applied but unvalidated, in the write buffer (malformed input must not disturb that either)
+            for _ in range(2):
+                head = tg.extend(head, txs=[], fees=0, dt=30)
+                net.clock.t = max(net.clock.t, head.view.time + 1)
+                sn.deliver(0, M.DataMessage(M.DATA_BLOCK, head.block), irt=91)
+            main = list(tg.nodes)
             sn.new_messages()
             # one pending transaction
             av = sorted(tg.spendable(head))
